@@ -153,6 +153,12 @@ func FuncKey(fn *ssa.Function) string {
 // CalleeKey returns the contract key of a static callee or interface method.
 func IfaceMethodKey(recvT types.Type, m *types.Func) string {
 	t := recvT
+	// canonical key: the named interface that declares the method (embedded interfaces)
+	if sig, ok := m.Type().(*types.Signature); ok && sig.Recv() != nil {
+		if n := namedOf(sig.Recv().Type()); n != nil {
+			t = n
+		}
+	}
 	if n, ok := t.(*types.Named); ok && n.Obj().Pkg() != nil {
 		return n.Obj().Pkg().Path() + "." + n.Obj().Name() + "." + m.Name()
 	}
